@@ -183,3 +183,231 @@ Section FiltFunAddr.
       + contradiction.
   Qed.
 End FiltFunAddr.
+
+(* ---------- the filters of these paths call no user function ---------- *)
+From JP Require Import CallDefs SpecCalls SpecCallsCompose StackRules.
+Lemma call_free_shaped steps : forall o, shaped (kinds_of steps) o -> (match o with OSome n => call_free n | ONone => true end) = true.
+Proof.
+  induction steps as [|x r IH]; intros o H.
+  - destruct o; [reflexivity|contradiction].
+  - unfold kinds_of in H. cbn [flat_map] in H. destruct (shaped_seg x _ o H) as (b1 & b2 & nx & E & Hn). subst o.
+    specialize (IH nx Hn). destruct x as [s|s]; cbn [ChainAddr.seg call_free]; rewrite IH;
+      destruct s as [q k|k|ds|[|]|sa sb sc|u us]; reflexivity.
+Qed.
+
+Section FiltCallFree.
+  Variable cfg : config.
+  Variable parse_float : string -> option num.
+
+  Lemma seg_call_free x b1 b2 nx r : shaped (kinds_of r) nx -> call_free (seg x b1 b2 nx) = true.
+  Proof.
+    intros Hs. pose proof (call_free_shaped r nx Hs) as H.
+    destruct x as [s|s]; cbn [ChainAddr.seg call_free]; rewrite H; destruct s as [q k|k|ds|[|]|sa sb sc|u us]; reflexivity.
+  Qed.
+  Lemma cur_operand_cf i : call_free_p (filter_pq cfg i) = true.
+  Proof.
+    destruct i as [|x r]; [reflexivity|]. unfold filter_pq. cbn [call_free_p].
+    destruct (operand_tree cfg x r) as (b1 & b2 & nx & E & Hs). rewrite E. apply (seg_call_free x b1 b2 nx r Hs).
+  Qed.
+  Lemma root_operand_cf j : call_free_p (root_pq cfg j) = true.
+  Proof.
+    destruct j as [|x r]; [reflexivity|]. unfold root_pq. cbn [call_free_p].
+    destruct (root_operand_tree_acc cfg x r) as (b1 & b2 & nx & E & Hs & _). rewrite E. apply (seg_call_free x b1 b2 nx r Hs).
+  Qed.
+  Lemma cmp_query_cf i o f : call_free_q (cmp_query cfg i o f) = true.
+  Proof. unfold cmp_query, cmp_left, cmp_right. destruct o; cbn [call_free_q call_free_p]; rewrite cur_operand_cf; reflexivity. Qed.
+  Lemma bq_query_cf b : call_free_q (bq_query cfg parse_float b) = true.
+  Proof.
+    destruct b as [i|i|i o lit|i ne l|j|j|i o j|i ne j|i body|lit o i|l ne i|j o i]; cbn [bq_query].
+    - cbn [call_free_q]. apply cur_operand_cf.
+    - cbn [call_free_q]. apply cur_operand_cf.
+    - apply cmp_query_cf.
+    - unfold lit_cmp, cmp_left. destruct ne; cbn [call_free_q call_free_p]; rewrite cur_operand_cf; reflexivity.
+    - cbn [call_free_q]. apply root_operand_cf.
+    - cbn [call_free_q]. apply root_operand_cf.
+    - unfold cmp_left. cbn [call_free_q]. rewrite cur_operand_cf, root_operand_cf. reflexivity.
+    - unfold cmp_left. cbv zeta. destruct ne; cbn [call_free_q]; rewrite cur_operand_cf, root_operand_cf; reflexivity.
+    - unfold rx_query, cmp_left. cbn [call_free_q call_free_p]. rewrite cur_operand_cf. reflexivity.
+    - apply cmp_query_cf.
+    - unfold lit_cmp, cmp_left. destruct ne; cbn [call_free_q call_free_p]; rewrite cur_operand_cf; reflexivity.
+    - unfold cmp_left. cbv zeta. destruct o; cbn [call_free_q]; rewrite cur_operand_cf, root_operand_cf; reflexivity.
+  Qed.
+  Lemma conj_query_cf c : call_free_q (conj_query cfg parse_float c) = true.
+  Proof.
+    destruct c as [|b bs]; [reflexivity|]. cbn [conj_query].
+    assert (H : forall q0, call_free_q q0 = true -> call_free_q (fold_left (fun q x => QAnd q (bq_query cfg parse_float x)) bs q0) = true).
+    { induction bs as [|x r IH]; intros q0 H0; [exact H0|]. cbn [fold_left]. apply IH. cbn [call_free_q]. rewrite H0, bq_query_cf. reflexivity. }
+    apply H. apply bq_query_cf.
+  Qed.
+  Lemma dnf_query_cf d : call_free_q (dnf_query cfg parse_float d) = true.
+  Proof.
+    destruct d as [|c cs]; [reflexivity|]. cbn [dnf_query].
+    assert (H : forall q0, call_free_q q0 = true -> call_free_q (fold_left (fun q x => QOr q (conj_query cfg parse_float x)) cs q0) = true).
+    { induction cs as [|x r IH]; intros q0 H0; [exact H0|]. cbn [fold_left]. apply IH. cbn [call_free_q]. rewrite H0, conj_query_cf. reflexivity. }
+    apply H. apply conj_query_cf.
+  Qed.
+  Lemma qt_query_cf t : call_free_q (qt_query cfg parse_float t) = true.
+  Proof.
+    induction t as [b|q IH|l IHl r IHr|l IHl r IHr]; cbn [qt_query call_free_q]; [apply bq_query_cf|exact IH|rewrite IHl, IHr; reflexivity|rewrite IHl, IHr; reflexivity].
+  Qed.
+End FiltCallFree.
+
+Section FiltFunCalls.
+  Variable cfg : config.
+  Variable parse_float : string -> option num.
+  Variable regex_ok : string -> bool.
+  Variable ffun : string -> value -> option value.
+  Variable afun : string -> list value -> option value.
+  Variable regex_match : string -> string -> bool.
+  Hypothesis ffun_small : forall f v w, small v -> ffun f v = Some w -> small w.
+  Hypothesis afun_small : forall f l w, Forall small l -> afun f l = Some w -> small w.
+  Notation parse := (parse_with cfg parse_float regex_ok jsonpath_grammar).
+  Notation eval_run := (eval_run ffun afun regex_match).
+  Notation sp := (sp ffun afun regex_match).
+  Notation sc := (sc ffun afun regex_match).
+  Notation nav1f := (nav1f parse_float regex_match).
+  Notation nav_allf := (nav_allf parse_float regex_match).
+  Notation fpres_f := (FiltChain.fpres cfg parse_float).
+  Notation fpres_u := (FunParse.fpres cfg).
+  Notation fseg := (fseg cfg parse_float).
+  Notation fpre_of := (fpre_of cfg parse_float).
+
+  (* the kind of a filter step's node *)
+  Definition fkind (x : fstep) : kind :=
+    match x with
+    | FE i => filt_kind cfg i
+    | FC i o lit | FCS i _ _ o _ _ lit => cmp_kind cfg i o (lit_num parse_float lit)
+    | FES neg _ _ i _ => fes_kind cfg neg i
+    | FN i => neg_kind cfg i
+    | FQ d => fq_kind cfg parse_float d
+    | FQS _ d => fq_kind cfg parse_float (unspace_dnf d)
+    | FT t => ft_kind cfg parse_float t
+    | _ => KRoot
+    end.
+  Lemma fseg_filt x b1 b2 next : is_filt x = true -> fseg x b1 b2 next = Node (fkind x) b2 next.
+  Proof. destruct x as [y|i|i o lit|i|d|y|i g0 a o b g1 lit|neg g0 gn i g1|g0' d'|t']; intros H; try discriminate H; reflexivity. Qed.
+  Lemma fpre_fkind x : is_filt x = true -> exists b, fpre_of x = [(fkind x, b)].
+  Proof. destruct x as [y|i|i o lit|i|d|y|i g0 a o b g1 lit|neg g0 gn i g1|g0' d'|t']; intros H; try discriminate H; eexists; reflexivity. Qed.
+  Lemma fkind_filter x : is_filt x = true -> exists q, fkind x = KFilter q /\ call_free_q q = true.
+  Proof.
+    destruct x as [y|i|i o lit|i|d|y|i g0 a o b g1 lit|neg g0 gn i g1|g0' d'|t']; intros H; try discriminate H; cbn [fkind].
+    - eexists. split; [reflexivity|]. cbn [call_free_q]. apply cur_operand_cf.
+    - eexists. split; [reflexivity|]. apply cmp_query_cf.
+    - eexists. split; [reflexivity|]. cbn [call_free_q]. apply cur_operand_cf.
+    - eexists. split; [reflexivity|]. apply dnf_query_cf.
+    - eexists. split; [reflexivity|]. apply cmp_query_cf.
+    - destruct neg; (eexists; split; [reflexivity|]); cbn [call_free_q]; apply cur_operand_cf.
+    - eexists. split; [reflexivity|]. apply dnf_query_cf.
+    - eexists. split; [reflexivity|]. apply qt_query_cf.
+  Qed.
+
+  (* a filter step's node alone is a well-formed tree: it is what its one-step path parses into *)
+  Lemma fnode_wf x b : is_filt x = true -> fstep_ok x = true -> fstep_okp parse_float regex_ok x = true -> wf_node (Node (fkind x) b ONone) = true.
+  Proof.
+    intros Hf Hs Hp.
+    assert (H1 : forallb fstep_ok [x] = true) by (cbn [forallb]; rewrite Hs; reflexivity).
+    assert (H2 : forallb (fstep_okp parse_float regex_ok) [x] = true) by (cbn [forallb]; rewrite Hp; reflexivity).
+    pose proof (parse_builds_wf cfg parse_float regex_ok _ _ (parse_fchain_path cfg parse_float regex_ok x [] H1 H2)) as H.
+    unfold fchain_node, FiltChain.fpres in H. cbn [flat_map] in H. rewrite app_nil_r in H. destruct (fpre_fkind x Hf) as (b0 & E). rewrite E in H.
+    exact H.
+  Qed.
+
+  Lemma sc_filt x b1 b2 nx root p v : is_filt x = true -> fstep_ok x = true -> fstep_okp parse_float regex_ok x = true -> small root -> small v ->
+    sc (fseg x b1 b2 (OSome nx)) root (Some p, v) = flat_map (fun lv => sc nx root (Some (fst lv), snd lv)) (nav1f root x (p, v)).
+  Proof.
+    intros Hf Hs Hp Hr Hsm. destruct (fkind_filter x Hf) as (q & Ek & Hq).
+    rewrite (fseg_filt x b1 b2 (OSome nx) Hf).
+    assert (Ea : Node (fkind x) b2 (OSome nx) = append_deep (Node (fkind x) b2 ONone) nx) by (rewrite Ek; reflexivity).
+    assert (Hcf : call_free (Node (fkind x) b2 ONone) = true) by (rewrite Ek; cbn [call_free]; rewrite Hq; reflexivity).
+    rewrite Ea, (sc_compose ffun afun regex_match _ (fnode_wf x b2 Hf Hs Hp) Hcf).
+    rewrite <- (fseg_filt x b1 b2 ONone Hf), (sp_fseg cfg parse_float ffun afun regex_match x b1 b2 ONone root p v Hs Hr Hsm).
+    rewrite cthen_flat_map. apply flat_map_ext'. intros lv. unfold ChainAddr.fwd, cthen. cbn [flat_map snd]. rewrite app_nil_r. reflexivity.
+  Qed.
+
+  Lemma sc_fseg x : forall b1 b2 nx root p v, fstep_ok x = true -> fstep_okp parse_float regex_ok x = true -> small root -> small v ->
+    sc (fseg x b1 b2 (OSome nx)) root (Some p, v) = flat_map (fun lv => sc nx root (Some (fst lv), snd lv)) (nav1f root x (p, v)).
+  Proof.
+    induction x as [y|i|i o lit|i|d|y IH|i g0 a o b g1 lit|neg g0 gn i g1|g0' d'|t']; intros b1 b2 nx root p v Hs Hp Hr Hsm;
+      try (apply sc_filt; [reflexivity|assumption..]).
+    - cbn [FiltChainAddr.fseg FiltChainAddr.nav1f fstep_ok] in *. apply (sc_seg cfg parse_float regex_ok ffun afun regex_match); assumption.
+    - cbn [fstep_ok fstep_okp] in Hs, Hp. apply andb_true_iff in Hs. destruct Hs as [Hf Hs]. cbn [FiltChainAddr.fseg FiltChainAddr.nav1f fst snd].
+      assert (E : sc (Node (KRec true true) b1 (OSome (fseg y b1 b2 (OSome nx)))) root (Some p, v) =
+                  flat_map (fun cu => sc (fseg y b1 b2 (OSome nx)) root cu) (containers (Some p) v)).
+      { rewrite sc_unfold. cbn [fst snd]. apply flat_map_ext'. intros [l x]. cbn [snd].
+        destruct (fkind_filter y Hf) as (q & Ek & _). rewrite (fseg_filt y b1 b2 (OSome nx) Hf), Ek.
+        destruct x; try reflexivity; rewrite sc_unfold; reflexivity. }
+      rewrite E. rewrite flat_map_flat_map. apply flat_map_ext_in'. intros cu Hin.
+      pose proof (containers_some v p Hsm) as Hc. rewrite Forall_forall in Hc. destruct (Hc cu Hin) as [[l Hl] Hsx].
+      destruct cu as [ol x]. cbn [fst snd] in *. subst ol. unfold cu_loc. cbn [fst snd].
+      apply IH; assumption.
+  Qed.
+
+  Lemma sc_fchain_tail tl : tl <> [] -> forall r x b1 b2, forallb fstep_ok (x :: r) = true -> forallb (fstep_okp parse_float regex_ok) (x :: r) = true ->
+    forall root p v, small root -> small v ->
+      sc (fseg x b1 b2 (fin (fpres_f r ++ tl))) root (Some p, v) =
+      flat_map (fun lv => match fin tl with OSome nx => sc nx root (Some (fst lv), snd lv) | ONone => [] end) (nav_allf root (x :: r) (p, v)).
+  Proof.
+    intros Htl. induction r as [|y r IH]; intros x b1 b2 Hs Hp root p v Hr Hsm; cbn [forallb] in Hs, Hp;
+      apply andb_true_iff in Hs; destruct Hs as [H1 H2]; apply andb_true_iff in Hp; destruct Hp as [P1 P2].
+    - change (fpres_f [] ++ tl) with tl. destruct tl as [|t0 tl']; [contradiction Htl; reflexivity|].
+      destruct (fin_some t0 tl') as (nx & En). rewrite En, sc_fseg by assumption.
+      cbn [FiltChainAddr.nav_allf]. rewrite flat_map_flat_map. apply flat_map_ext'. intros lv. cbn [flat_map]. rewrite app_nil_r. reflexivity.
+    - assert (Hy : fstep_ok y = true) by (cbn [forallb] in H2; apply andb_true_iff in H2; exact (proj1 H2)).
+      assert (Ea : fpres_f (y :: r) ++ tl = fpre_of y ++ (fpres_f r ++ tl)) by (unfold FiltChain.fpres; cbn [flat_map]; rewrite <- app_assoc; reflexivity).
+      destruct (fin_fpre cfg parse_float y (fpres_f r ++ tl) Hy) as (c1 & c2 & Ef & Hc).
+      rewrite Ea, Ef, sc_fseg by assumption.
+      cbn [FiltChainAddr.nav_allf]. rewrite flat_map_flat_map. apply flat_map_ext_in'. intros [l z] Hin. cbn [fst snd]. apply IH; [exact H2|exact P2|exact Hr|].
+      pose proof (nav1f_small parse_float regex_match root x p v Hsm) as Hn. rewrite Forall_forall in Hn. exact (Hn (l, z) Hin).
+  Qed.
+
+  Lemma sc_fchain_funs x r f fs doc : forallb fstep_ok (x :: r) = true -> forallb (fstep_okp parse_float regex_ok) (x :: r) = true -> small doc ->
+    sc (fchain_fun_node cfg parse_float (x :: r) (f :: fs)) doc (Some [], doc) = calls_all ffun (f :: fs) (nav_allf doc (x :: r) ([], doc)).
+  Proof.
+    intros Hs Hp Hsm. unfold fchain_fun_node.
+    assert (Hx : fstep_ok x = true) by (cbn [forallb] in Hs; apply andb_true_iff in Hs; exact (proj1 Hs)).
+    destruct (fnode_of_seg cfg parse_float x r (fpres_u (f :: fs)) Hx) as (b1 & b2 & En & Hb).
+    rewrite En, (sc_fchain_tail (fpres_u (f :: fs)) ltac:(discriminate) r x b1 b2 Hs Hp) by exact Hsm.
+    destruct (fin_fpres cfg f fs) as (c & Ef & Hc). unfold calls_all. apply flat_map_ext'. intros [l z]. rewrite Ef, (sc_funs cfg ffun afun regex_match). reflexivity.
+  Qed.
+
+  (* the filters of such a tree hold no user function *)
+  Definition cfkind (k : kind) : Prop := match k with KMulti _ _ _ | KAgg _ _ => False | KFilter q => call_free_q q = true | _ => True end.
+  Lemma fin_cfk l : Forall (fun kb : kind * basic => cfkind (fst kb)) l -> (match fin l with OSome m => filters_call_free m | ONone => true end) = true.
+  Proof.
+    induction l as [|x l IH]; intros H; [reflexivity|]. inversion H as [|? ? Hx Hl]; subst. cbn [fin filters_call_free].
+    rewrite (IH Hl). destruct (fst x); try contradiction; try reflexivity. cbn [cfkind] in Hx. rewrite Hx. reflexivity.
+  Qed.
+  Lemma fpre_cfk x : fstep_ok x = true -> Forall (fun kb : kind * basic => cfkind (fst kb)) (fpre_of x).
+  Proof.
+    induction x as [y|i|i o lit|i|d|y IH|i g0 a o b g1 lit|neg g0 gn i g1|g0' d'|t']; intros Hs.
+    2-5,7-10: (match goal with |- Forall _ (FiltChain.fpre_of _ _ ?x) =>
+                 destruct (fpre_fkind x eq_refl) as (b0 & E); rewrite E; constructor; [|constructor];
+                 destruct (fkind_filter x eq_refl) as (q & Ek & Hq); cbn [fst]; rewrite Ek; exact Hq end).
+    - cbn [FiltChain.fpre_of]. destruct y as [s|s]; cbn [rstep_pre]; repeat constructor; destruct s as [q k|k|ds|[|]|sa sb sc0|u us]; exact I.
+    - cbn [fstep_ok] in Hs. apply andb_true_iff in Hs. destruct Hs as [_ Hs]. cbn [FiltChain.fpre_of]. constructor; [exact I|apply IH; exact Hs].
+  Qed.
+  Lemma fchain_fun_node_fcf x r fs : forallb fstep_ok (x :: r) = true -> filters_call_free (fchain_fun_node cfg parse_float (x :: r) fs) = true.
+  Proof.
+    intros Hs. unfold fchain_fun_node, node_of.
+    assert (H : Forall (fun kb : kind * basic => cfkind (fst kb)) (fpres_f (x :: r) ++ fpres_u fs)).
+    { apply Forall_app. split.
+      - unfold FiltChain.fpres. remember (x :: r) as l eqn:El. clear El. induction l as [|y l IH]; [constructor|].
+        cbn [forallb] in Hs. apply andb_true_iff in Hs. destruct Hs as [H1 H2]. cbn [flat_map]. apply Forall_app. split; [apply fpre_cfk; exact H1|apply IH; exact H2].
+      - induction fs as [|f0 fs IH]; constructor; [exact I|exact IH]. }
+    destruct (fpres_f (x :: r) ++ fpres_u fs) as [|y l]; [reflexivity|]. inversion H as [|? ? Hy Hl]; subst.
+    cbn [filters_call_free]. rewrite (fin_cfk l Hl). destruct (fst y); try contradiction; try reflexivity. cbn [cfkind] in Hy. rewrite Hy. reflexivity.
+  Qed.
+
+  (* the call log of the retrieval: for each value the steps and filters reach, in the order they reach them, f on it, then the
+     next function on what f returned, and so on until one fails — and nothing else: the filters call no user function *)
+  Theorem fchain_fun_calls x r f fs doc st : forallb fstep_ok (x :: r) = true -> forallb (fstep_okp parse_float regex_ok) (x :: r) = true ->
+    forallb fname_ok (f :: fs) = true -> forallb (fun_known cfg) (f :: fs) = true -> small doc -> ok st ->
+    exists t, parse (fchain_fun_path (x :: r) (f :: fs)) = ParseOk t /\
+              calls (snd (eval_run t doc st)) = calls st ++ calls_all ffun (f :: fs) (nav_allf doc (x :: r) ([], doc)).
+  Proof.
+    intros Hs Hokp Hf Hk Hd Hok. exists (fchain_fun_node cfg parse_float (x :: r) (f :: fs)).
+    pose proof (parse_fchain_fun_path cfg parse_float regex_ok x r (f :: fs) Hs Hokp Hf Hk) as Hp. split; [exact Hp|].
+    rewrite (eval_call_log ffun afun regex_match ffun_small afun_small _ doc st (parse_builds_wf cfg parse_float regex_ok _ _ Hp) (fchain_fun_node_fcf x r (f :: fs) Hs) Hd Hok).
+    rewrite (sc_fchain_funs x r f fs doc Hs Hokp Hd). reflexivity.
+  Qed.
+End FiltFunCalls.
